@@ -194,14 +194,15 @@ pub fn stateright_bfs<Y: Sys>(sys: Arc<Y>, max_states: usize) -> SrResult {
 /// Run both explorers and compare. Returns the graph and a list of disagreements (machinery errors).
 pub fn explore_both<Y: Sys>(sys: Arc<Y>, keep_edges: bool, max_states: usize) -> (Graph<Y>, SrResult, Vec<String>) {
     let g = bfs(&*sys, keep_edges, max_states);
-    let sr = stateright_bfs(sys.clone(), max_states);
+    let sr = if g.capped {
+        SrResult { unique_states: 0, generated: 0, max_depth: 0, counterexample: None }
+    } else {
+        stateright_bfs(sys.clone(), max_states)
+    };
     let mut errs = vec![];
     if g.capped {
         // the subject's reachable state space is far larger than the reference model's: the search is not
-        // closed. Violations found so far are still real (BFS order: shallowest first).
-        if g.bads.is_empty() {
-            errs.push(format!("state cap of {} states hit without closing the search and without a violation (the real object has far more reachable states than the reference model)", max_states));
-        }
+        // closed (the caller reports the cap; violations found so far are real - BFS order: shallowest first)
     } else if g.bads.is_empty() {
         if sr.unique_states != g.states.len() {
             errs.push(format!(
